@@ -48,7 +48,8 @@ impl<'a> Parser<'a> {
 
                 State::Ttl { name } => {
                     if let Token::CharData(data) = token {
-                        if let Ok(class) = DNSClass::from_str(&data) {
+                        // `DNSClass::from_str` expects upper case (a TTL such as `1h` is not a class)
+                        if let Ok(class) = DNSClass::from_str(&data.to_ascii_uppercase()) {
                             State::Type {
                                 name,
                                 ttl: None,
@@ -79,7 +80,7 @@ impl<'a> Parser<'a> {
 
                 State::Type { name, ttl, class } => {
                     if let Token::CharData(data) = token {
-                        let rtype = RecordType::from_str(&data)?;
+                        let rtype = RecordType::from_str(&data.to_ascii_uppercase())?;
 
                         if !matches!(rtype, RecordType::DNSKEY) {
                             return Err(ParseError::UnsupportedRecordType(rtype));
